@@ -938,7 +938,7 @@ def r110(ctx, R):
                      'the %s of each Allocation built from the request is '
                      'the key of a mapping enumerated once' % role, why,
                      func=f, node=s.node)
-    R.count('R1.10', n, 3)
+    R.count('R1.10', n, 2)
 
 
 _run_c01d = run
